@@ -5,6 +5,8 @@ import DuckModel.Wire
 import DuckModel.Parser
 import DuckModel.Spec.Render
 import DuckModel.Scripted
+import DuckModel.Registry
+import DuckModel.Sdk.Condition
 
 namespace Duck.Driver
 open Duck Duck.Wire
@@ -23,6 +25,29 @@ def decComment (x : String) : Option (Nat × Str) :=
     let t ← decStr txt
     pure (n, t)
   | _ => none
+
+def decRegOp (t : String) : Option RegOp :=
+  match t.splitOn "/" with
+  | ["S", n, al, tag] => do pure (.set { name := (← decStr n), aliases := (← decList al), tag := (← tag.toNat?) })
+  | ["G", n] => (decStr n).map .get
+  | ["E", n] => (decStr n).map .exists
+  | ["R", n] => (decStr n).map .remove
+  | ["N"] => some .names
+  | _ => none
+
+def encSpec (c : CmdSpec) : String := encStr c.name ++ "/" ++ encList c.aliases ++ "/" ++ toString c.tag
+
+def encRegOut : RegOut → String
+  | .bool b => if b then "1" else "0"
+  | .cmd none => "-"
+  | .cmd (some c) => encSpec c
+  | .names l => encList l
+
+def sortStrings (l : List String) : List String := (l.toArray.qsort (· < ·)).toList
+
+def encReg (r : Reg) : String :=
+  "CMDS " ++ ",".intercalate (sortStrings (r.commands.map fun (k, c) => encStr k ++ ">" ++ encSpec c)) ++
+  " ALIASES " ++ ",".intercalate (sortStrings (r.aliases.map fun (k, v) => encStr k ++ ">" ++ encStr v))
 
 /-- C01 item: label/output/command/args/lead/trail/afterLabel/eqBefore/eqAfter/argch/comment/crlf -/
 def decItem (t : String) : Option (Spec.Choices × ScriptInstr × Bool) :=
@@ -77,6 +102,23 @@ def handle (toks : List String) : String :=
         | .halted => "ok | VARS " ++ encVars rs.vars ++ logs
         | .outOfFuel => "fuel" ++ logs
     | _, _, _, _, _ => bad
+  | ["reg", ops] =>
+    match (if ops = "-" then some [] else (ops.splitOn ";").mapM decRegOp) with
+    | some ops =>
+      let (r, outs) := Reg.run {} ops
+      ";".intercalate (outs.map encRegOut) ++ " | " ++ encReg r
+    | none => bad
+  | ["cond", _consumer, toks, _exp] =>
+    match decList toks with
+    | some ts =>
+      match evalSlice ts with
+      | .ok b => if b then "ok 1" else "ok 0"
+      | .error _ => "err"
+    | none => bad
+  | ["truthy", v] =>
+    match decOpt v with
+    | some v => if isTrue v then "1" else "0"
+    | none => bad
   | ["ws", n] =>
     match n.toNat? with
     | some k => if isWs (Char.ofNat k) then "1" else "0"
